@@ -2,8 +2,8 @@
 SPECIFICATION Spec
 CONSTANTS
   ScalesP = {12, 13, 14, 16}
-  OffsetsP = {11, 12, 16, 17, 19, 20, 21, 27}
-  MaxBuckets = 7
+  OffsetsP = {11, 12, 15, 16, 17, 18, 19, 20, 21, 22, 23, 27}
+  MaxBuckets = 8
   CountVals = {0, 1, 3}
   Modes = {"exp", "explicit"}
   SimPick = 0
